@@ -146,6 +146,7 @@ class Gen:
         self.big_n = big_n
         self.allow_parse_selection = allow_parse_selection
         self.extreme_n = extreme_n      # rate of 64-bit / double boundary numbers among numeric literals (C05)
+        self.computed_names = True      # (: <expression>) with a computed variable name (C12 substitutes names textually: off there)
         self.used = set()
 
     # ---- leaves
@@ -497,7 +498,7 @@ class Gen:
     def mk_varfn(self, kind, sc, d):
         r = self.rng
         names = [n for n, k in sc.vars.items() if k == kind or kind == "any"]
-        if names and r.random() < 0.2 and sc.dot == "rec":
+        if names and self.computed_names and r.random() < 0.2 and sc.dot == "rec":
             # the name of the variable is computed: the record says which one (with a fallback)
             return ("call", ":", (("call", "default", (("path", 0, (("k", "which"),)), ("lit", r.choice(names)))),))
         if names and r.random() < 0.7:
